@@ -236,6 +236,21 @@ def withNested (nest : Option Nat) (outer : List Ev × Res) (nested : List Ev ×
       | .icpt i _ => if i = n then e :: nested.1 else [e]
       | _ => [e]), outer.2)
 
+/-- `share=1`: several instances built with `NewSimpleHTTPWithClientAndInterceptors` on the SAME `*http.Client`.  On the current
+    code each new instance finds the previous one as the client's transport, keeps it as its `clientTransport` and installs itself:
+    the client's transport is the LAST instance, whose transport is the one before, … down to the client's original transport.  All
+    instances hold that one client, so a request through any of them runs the chain of every instance, latest first, each seeing
+    the headers left by the ones before, and an error aborts everything after it. -/
+def chainDo (beh : Nat → Req → Req × Bool) (tf : Tr → Bool) (finalT : Tr) : List (List Nat) → Req → List Ev × Res
+  | [], req => ([.transport finalT req], if tf finalT then .terr else .ok)
+  | is :: rest, req =>
+    let r := Spec.visit beh (fun _ => false) finalT is req       -- this instance's chain; its "transport" is the next instance
+    match r.2, r.1.getLast? with
+    | .ok, some (.transport _ req') =>
+      let tl := chainDo beh tf finalT rest req'
+      (r.1.dropLast ++ tl.1, tl.2)
+    | _, _ => r
+
 structure Inst where
   s : SH        -- (its `interceptors` field is refreshed from the store before use)
   sl : Sl
@@ -286,7 +301,7 @@ def initSt (head : String) : St × List Nat × List String :=
 
 def setInst (st : St) (j : Nat) (i : Inst) : St := { st with insts := st.insts.set j i }
 
-def runOpOn (nest : Option Nat) (fail : List Nat) (tfail : List String) (st : St) (j : Nat) (toks : List String) : St × String :=
+def runOpOn (share : Option Tr) (nest : Option Nat) (fail : List Nat) (tfail : List String) (st : St) (j : Nat) (toks : List String) : St × String :=
   match st.insts[j]? with
   | none => (st, "noinst")
   | some i =>
@@ -306,26 +321,34 @@ def runOpOn (nest : Option Nat) (fail : List Nat) (tfail : List String) (st : St
       ({ setInst st j { i with s := s } with cs := cs }, "nil")
     | ["req", _verb] =>
       -- (the verb — also CANCELLED / EXPIRED: a request whose context is already done — makes no difference to the chain)
+      match share with
+      | some finalT =>
+        (st, showResult (chainDo (behOf fail) (tfOf tfail) finalT (st.insts.reverse.map (fun i => readS st.store i.sl)) []))
+      | none =>
       let one := clientDo (behOf fail) (tfOf tfail) (i.sh st) st.cs []
       (st, showResult (withNested nest one one))
     | _ => (st, "bad-op")
 
-def runOp (nest : Option Nat) (fail : List Nat) (tfail : List String) (st : St) (op : String) : St × String :=
+def parseShare (head : String) : Option Tr :=
+  let toks := head.splitOn " "
+  if kv toks "share" = "1" then some ((parseTr (((kv toks "clients").splitOn ",").headD "d")).getD .dflt) else none
+
+def runOp (share : Option Tr) (nest : Option Nat) (fail : List Nat) (tfail : List String) (st : St) (op : String) : St × String :=
   match (op.splitOn " ").filter (· ≠ "") with
   | ["inst", c, is] => (newInst st (clientIdx c) is, "nil")
   | ["instd"] | ["insta"] =>
     -- NewSimpleHTTP(): NewSimpleHTTPWithClientAndInterceptors(&http.Client{}) — a fresh client, no interceptors
     (newInst { st with cs := st.cs ++ [none] } st.cs.length "-", "nil")
   | t :: rest =>
-    if t.startsWith "@" then runOpOn nest fail tfail st ((t.drop 1).toString.toNat?.getD 0) rest
-    else runOpOn nest fail tfail st 0 (t :: rest)
+    if t.startsWith "@" then runOpOn share nest fail tfail st ((t.drop 1).toString.toNat?.getD 0) rest
+    else runOpOn share nest fail tfail st 0 (t :: rest)
   | [] => (st, "bad-op")
 
 def handle (line : String) : String :=
   let (head, ops) := splitCase line
   let (st0, fail, tfail) := initSt head
   let (_, outs) := ops.foldl (fun (acc : St × List String) op =>
-    let (st, o) := runOp (parseNest head) fail tfail acc.1 op
+    let (st, o) := runOp (parseShare head) (parseNest head) fail tfail acc.1 op
     (st, o :: acc.2)) (st0, [])
   " | ".intercalate outs.reverse
 
@@ -393,7 +416,14 @@ def judge (line impl : String) : String :=
       | ["set", _] => upd l
       | ["retr", _] => upd l
       | ["req", _] =>
-        let exp := specEvents (parseNest head) fail l
+        let exp := match parseShare head with
+          | some _ =>
+            -- the instances share one client: the request runs every instance's chain, latest instance first (see `chainDo`)
+            let r := chainDo (behOf fail) (fun _ => false) .dflt acc.1.reverse []
+            (r.1.map (fun e => match e with
+              | .icpt .. => e.show
+              | .transport _ req => ":" ++ showTrace req), r.2.show)
+          | none => specEvents (parseNest head) fail l
         if obsMatches tfail exp oo.2 then acc
         else (acc.1, acc.2 ++ [s!"op '{oo.1}' on instance {j} with registered interceptors {l}: observed '{oo.2}', property demands '{" ".intercalate (exp.1 ++ [exp.2])}' (':trace' = any one transport)"])
       | _ => acc) ([is0], [])
